@@ -11,6 +11,72 @@ CHECKS = {
          'Every swept (kind, ref, version) is pushed through every public construction/conversion/String/Parse path and compared with the tuple itself; order is decided for all pairs of the swept set, the Sort helpers against an independent sort, malformed strings from a table plus mutation grammar. Exploration is the right level: the functions are pure, the defects live at bit-field boundaries which the sweep enumerates completely, the rest is sampled.',
          'trusted: Go integer arithmetic and sort; the harness tuple order. Not covered: refs >= 2^40, negative refs, versions >= 2^16 (outside the statement).'),
 }
+CHECKS.update({
+ 'C01': ('exploration', 'reference-model monitor: independent PBF writer, model-derived expectation compared with Scan/Object/Header',
+         'Every generated file is scanned through the public API and every delivered field compared with the value the format defines (from the writer\'s model, exact integer nanodegrees, tolerance 1e-10). Systematic present/absent toggles of all 33 optional parts at block, group and element level on the same decoder, header fields one by one, plus PRNG files, decoder counts {1,2,5,16}, chunked readers, both zlib back-ends; thorough adds -race and -asan builds.',
+         'trusted: the harness writer (protowire, compress/zlib). Not covered: plain Node groups, zero-node dense groups, LZMA blobs, files beyond the generated size classes.'),
+ 'C02': ('exploration', 'schedule perturbation at reader/decoder-callback/consumer + Go race detector + event-log exactly-once monitor',
+         'Files of 12-60 blocks are scanned with 1..32 decoders while delays are injected in the io.Reader (reader goroutine), in the Filter callbacks (decoder goroutines) and in the consumer loop; the oracle compares the delivered sequence with the model, checks exactly-once filter delivery, compares every retained object at delivery and after the scan, and fails on any race report with a library frame. The evidence counts distinct block-completion permutations and runs with inversions. Schedules are sampled.',
+         'trusted: Go race detector (happens-before, only on executed paths). Schedules not produced by the perturbation plans are not covered.'),
+ 'C06': ('fault_enumeration', 'exhaustive cut-point and damage-class enumeration in crash/hang-isolated child processes',
+         'All byte offsets of small files are used as cut points; 43 damage classes are applied to header/first/middle/last block; a non-EOF I/O error is injected at every Read call. Oracle: exactly the objects of the intact blocks, error iff the cut is not a block boundary / the damage is detectable, the very injected error for I/O faults; a child that dies or wedges is the observation crash/hang.',
+         'trusted: block layout reported by the harness writer; hang classification by goroutine dump. asan build (thorough) watches native zlib on corrupt compressed data.'),
+ 'C08': ('exploration', 'monitors inside the Filter callbacks + subsequence oracle + post-return snapshot comparison',
+         'Filter callbacks log every call and compare the element they are handed with the model element at that file position; the delivered sequence must be the model sequence filtered by the same pure predicate and skip flags; every returned object is snapshotted at return and compared after the scan. 8 skip masks x 9 predicate classes per type x decoders {1,3,8}.',
+         'trusted: the PBF model (validated by C01). Predicates are pure and never retain their argument.'),
+ 'C09': ('fault_enumeration', 'offset monitor after every Scan against the writer\'s block layout + resume scans at every reported offset',
+         'Every stop position k of each file is observed (both offsets read after every Scan and compared with the block layout), a second scanner is started at every distinct reported offset and at the previous offset and must deliver exactly the model suffix with a nil header; real Scan x k, Close, resume histories for sampled k; skip masks create fully empty blocks; decoders {1,2,4,16}.',
+         'trusted: block layout from the harness writer. After the terminal Scan only the resume consequence is asserted.'),
+})
+CHECKS.update({
+ 'C13': ('exploration', 'reference-model monitor over generated (change, histories, option) triples with a recording/fault-injecting datasource wrapper',
+         'annotate.Change is executed on fresh deep copies of generated triples (unsorted, gapped, duplicated, missing histories; every mix of the nine action/kind cells; with and without the ignore option; injected non-not-found errors) and the diff is compared with an independent reference of the documented pairing rule, ordering, visibility and typed errors; every history over versions 1..6 is enumerated; a second run checks determinism.',
+         'trusted: the reference max-below search (12 lines). Not asserted: order inside one (action, kind) cell, which of several failing elements is reported, versions <= 0.'),
+ 'C18': ('exploration', 'exhaustive enumeration against an own hash-map copy of the polygon-features rules',
+         'Way.Polygon/Relation.Polygon are evaluated on every listed key x every listed value of any key (plus near-misses, unlisted, empty, no) x area classes, all ordered pairs of rule keys, tag permutations, unrelated tags and the closed/length preconditions, and compared with a reference evaluator over hash maps (no sort, no binary search). Exhaustive over the rule table, so every per-value lookup result is decided.',
+         'trusted: the content of the rule table (pinned by key/value counts and a checksum from a second transcription). A rule key with an empty value is run but not asserted (statement and library differ from osmtogeojson there).'),
+})
+CHECKS.update({
+ 'C07': ('fault_enumeration', 'porcupine linearizability check of recorded call histories + counting/endless readers + goroutine-dump monitor + Go race detector',
+         'Every stop position k=0..N+1 of small PBF and XML inputs x stop kind (Close, cancel from the scanning goroutine, cancel from a concurrent goroutine overlapping further Scans) x decoder count is executed and its call history checked for linearizability against a 60-line sequential scanner model; counting readers measure what is consumed after the stop (300-block files) and an endless reader with a logical byte budget turns never-stops-reading into a counted observation; goroutine dumps after Close/cancel; cancellations issued from the reader callback or a timer while the consumer is slow or waiting run under the race detector; histories with an injected I/O error check the error precedence.',
+         'trusted: porcupine v1.3.0, Go race detector, the 25% read-ahead allowance. Interleavings are sampled; a watchdog firing with runnable goroutines is inconclusive.'),
+})
+CHECKS.update({
+ 'C03': ('exploration', 'reference-model monitor: independent OSM-XML writer with layout noise, whole-document decode and streaming scanner compared with the model and with each other',
+         'Documents are written from a model with explicit document order by a writer that shares nothing with the library (150 optional features, 12 noise classes: attribute order, whitespace, comments, PIs, CDATA, self-closing vs paired tags, unknown attributes/elements, entity and character-reference escaping); xml.Unmarshal into OSM/Change/Diff and osmxml.Scanner (chunked reader) must both equal the model, and each other kind by kind.',
+         'trusted: the harness XML writer and Go encoding/xml tokenisation. Unknown wrapper elements around OSM-named elements at container level are not generated (ambiguous). "]]>" inside attribute values is a Go encoding/xml limit: probed, not asserted.'),
+ 'C04': ('exploration', 'round-trip monitor (xml.Marshal -> xml.Unmarshal / osmxml.Scanner) with a vocabulary checker over the marshalled tokens',
+         'Generated values of all seven object kinds and OSM/Change/Diff containers, including top-level bounds in OSM and in every osmChange block and all annotations, are marshalled, tokenised against an OSM XML vocabulary table, unmarshalled and compared with the original (canonical dump), and read back by the streaming scanner. Every violation is shrunk to a single-feature input.',
+         'trusted: eq.Dump equality (empty discussion == nil by design of the marshaller; note dates have whole seconds). Strings restricted to XML 1.0 characters.'),
+ 'C05': ('exploration', 'shape monitor on generic JSON parse + round trip + independently written osmjson documents, under default and recording user-installed codec',
+         'osm.OSM/Change/element values are marshalled and shape-checked on a generic parse (elements[], type, tags object, nodes id array, members never null), round-tripped, and independently written osmjson documents (version number/string/absent, unknown keys, noise) are unmarshalled and compared with the model up to tag order and way-node annotations; every step runs under the default codec and under a recording harness codec installed through the public Custom JSON hooks (also marshaler-only / unmarshaler-only), results must be equal and the hooks consulted.',
+         'trusted: the harness JSON text writer; json-iterator cannot run on this toolchain (reflect2 crash) so the installed codec is a harness type over encoding/json. Tags.UnmarshalJSON bypassing the installed unmarshaler is recorded, not asserted (results equal).'),
+ 'C11': ('exploration', 'reference-model monitor over generated edit histories + independent time-travel oracle (ApplyUpdatesUpTo on clones)',
+         'annotate.Ways/Relations run on generated histories (commit-time and timestamp+threshold regimes, repeats, deletions, children entering/leaving, same-instant edits, options, filters); annotated children, update lists and error classes are compared with an independent reference (strict on well-separated histories, acceptable-set oracle on mixed windows), and for sampled t every child after ApplyUpdatesUpTo(t) must be the version current at t.',
+         'trusted: the reference model in internal/hist (~400 lines). Mixed threshold windows and versions on the next parent\'s instant are only checked permissively; mixed-regime histories are run, not asserted.'),
+ 'C12': ('exploration', 'determinism monitor: 12 runs on deep clones with the datasource recording map-iteration order + update-order oracle',
+         'Each input is annotated 12 times on deep clones; all runs must succeed with identical canonical dumps or all fail; every update list must be ordered by (index, time, version). The recording datasource exposes the iteration order of the child map, so the evidence reports how many distinct hash orders were actually seen. Workloads are biased to same-second versions, repeated children and >12 updates per parent, plus an enumerated (versions-in-one-second x indexes) grid.',
+         'trusted: eq.Clone/eq.Dump. Hash orders are sampled (up to 12 per input), not enumerated.'),
+ 'C16': ('exploration', 'ground-truth generator with exact integer geometry predicates; oracle over Convert output and annotate orientations across four input variants',
+         'Ground-truth polygon sets (1-4 outers, 0-3 holes, validated by the generator\'s own exact predicates) are cut, reversed and shuffled; the converted feature must be exactly the truth\'s rings (cyclic vertex sequence, closed, outer CCW / inner CW by own signed area, each outer with exactly its holes), identical across node-object vs way-node coordinates and with/without orientation annotations, and annotate.Relations must mark each way with its true direction. Small n-gons are enumerated over every cut set x reversal mask x member permutation.',
+         'trusted: the generator\'s int64 predicates (self-tested). Normalised across variants: ring start vertex, hole order, polygon order only.'),
+ 'C17': ('exploration', 'reference-rule monitor over generated data sets x all 16 option sets, with determinism (byte-identical JSON) and input-immutability snapshots',
+         'Each data set is converted under all 16 option combinations three times; the FeatureCollection JSON is checked against an independent reference of the documented rules (one feature per element at most, type/id/tags/meta/memberships, node rule both directions, way coordinates / closed CCW rings, route edge multiset), each option must remove exactly its documented key, repeats must be byte-identical and the input must equal its deep snapshot.',
+         'trusted: the reference rules in c17.go. Grey zones (run, counted, not asserted): way vertex at (0,0) for unlocated nodes, negative ids, an outer way shared by two tagless multipolygons.'),
+ 'C20': ('exploration', 'fake API v0.6 server (httptest) logging every request with one atomic sequence shared with the rate-limiter monitor',
+         'Every endpoint x arguments x options x base URL x limiter mode x status/body is called against a local server that records method, path and query; the oracle checks exactly one GET to the documented path (queries as parameter sets, bbox numerically), limiter Wait ordered before the request and no request after a limiter error, returned elements equal to what the server wrote (independent XML writer), status-to-typed-error mapping with NotFound only for 404, no partial data with an error, and exactly-one-element calls. Thorough enumerates the whole product.',
+         'trusted: the endpoint table written from the API v0.6 documentation. bbox decimals beyond 1e-6 are not asserted (the statement promises no precision).'),
+})
+CHECKS.update({
+ 'C19': ('fault_enumeration', 'fake planet server (httptest) with exact-path routing, request log and a logical request budget; exhaustive missing-file patterns for small ranges',
+         'For ranges 1..N (N<=9 quick, <=11 thorough) every subset of present state files (404 for the others) x every query position x the four streams is looked up through the public *StateAt API against a local server that answers only the documented planet paths and turns non-termination into a counted budget overrun (HTTP 500); the result must be the first present state at or after t (newest when later than all) within the loose request budget; larger and high-offset ranges with gap runs next to the probes are sampled; the three timestamp formats, the changeset off-by-one and data URLs are checked.',
+         'trusted: the fake server\'s layout table (three-level zero-padded paths, state.txt/state.yaml). Offset windows with a missing prefix longer than 5 000 files are not queried at or before their first present state.'),
+})
+CHECKS.update({
+ 'C15': ('exploration', 'reference-model monitor over enumerated and generated (element, update list, t) triples, with shrinking',
+         'Way/Relation.ApplyUpdatesUpTo, Updates.UpTo and Way.LineStringAt are executed on every update list up to length 3 (4 in thorough) over 0-3 children and on generated lists (0-12 children, 0-30 updates, duplicate timestamps, 1 ns neighbours, index-sorted / time-sorted / shuffled / interleaved storage) at every distinct instant, and compared with an independent model: exact state and pending list, typed out-of-range error, composability for per-child time-ordered lists, LineStringAt against apply+LineString on fully annotated ways, and the consumer path through annotate.Relations.',
+         'trusted: the 60-line reference model. Negative indexes, partially annotated ways and element state after an out-of-range error are outside the statement: run, counted, not asserted.'),
+})
 PENDING = 'check not built yet in this revision of /verif (planned in DESIGN.md section 4); no verdict is claimed'
 
 checks, na = [], []
